@@ -125,6 +125,31 @@ def impl_levels(case):
             vec2 = {"cls": gens.generic_spec("vector", case["nenz"]), "seq": v2["seq"]}
             o2 = implutil.run_assembly({"vector": vec2, "modules": [{"cls": case["next"], "seq": prod}], "typed": False})
             res["second"] = {"obs": o2, "expected": t0["target"] + v2["frag"], "vector": vec2}
+            # the same composition on annotated inputs, feeding the product OBJECT (its features, its reference
+            # list) to the next level: a citing feature inside the first insert
+            try:
+                from Bio.SeqFeature import SeqFeature, FeatureLocation
+                from harness import recutil
+                vec = implutil.mk_entity(case["vector"], "vector")
+                mods = [implutil.mk_entity(m, "mod%d" % i) for i, m in enumerate(case["modules"])]
+                m0 = mods[0]
+                tgt = str(m0.target_sequence().seq).upper()
+                sq = str(m0.record.seq).upper()
+                idx = (sq * 2).find(tgt)
+                a = (idx + 1) % len(sq)
+                if idx >= 0 and a + 1 <= len(sq):
+                    m0.record.annotations["references"] = [recutil.mk_reference(3), recutil.mk_reference(5)]
+                    m0.record.features.append(SeqFeature(FeatureLocation(a, a + 1, 1), type="misc_feature",
+                                                         qualifiers={"citation": ["[2]"], "label": ["cited"]}))
+                    o1, pobj = implutil.observe_assembly(vec, mods)
+                    if pobj is not None:
+                        vec2e = implutil.mk_entity(vec2, "vector2")
+                        o3, _ = implutil.observe_assembly(vec2e, [nxt(pobj)])
+                        res["second_cited"] = {"first": o1["out"], "out": o3["out"], "exc": o3.get("exc"), "msg": o3.get("msg")}
+                    else:
+                        res["second_cited"] = {"first": o1["out"], "out": "first-level-failed", "exc": o1.get("exc")}
+            except Exception as e:  # noqa
+                res["second_cited"] = {"first": None, "out": "harness-exception", "exc": type(e).__name__, "msg": str(e)[:200]}
     return res
 
 
@@ -183,6 +208,13 @@ def run(ctx):
                 ctx.count("second-level-assemblies")
                 aterms.append(C03.c_raw(ctx, {"vector": s2["vector"], "modules": [{"cls": c["next"], "seq": prod}]}, s2["obs"]))
                 aidx.append(i)
+                sc = o.get("second_cited")
+                if sc and sc["out"] != "product":
+                    bad = ("C11:second-level-assembly:annotated-product-object",
+                           "with a cited feature on the first insert the product OBJECT cannot be assembled at the next "
+                           "level (first level: %s; second level: %s %s %s)" % (sc.get("first"), sc["out"], sc.get("exc"), sc.get("msg")))
+                elif sc:
+                    ctx.count("second-level-assemblies-of-the-annotated-product-object")
         if bad:
             ctx.violations.append({"signature": bad[0], "what": bad[1], "input": inp})
         n = len(prod)
